@@ -88,6 +88,22 @@ Definition say_close (cs : list (list N)) : step := {| chunks := cs; closes := t
 Definition run uid fd scr := let (res, s) := connect_to_bus uid fd scr in (res, sent (log s), unread s).
 Definition full (hex : string) (fd : bool) := expected_bytes (b hex) fd.
 
+(* which replies accept (specification) and what the code's test says: the same *)
+Example accepts_ex :
+  map (accepts OK_) [b "OK"; b "OK 1234deadbeef"; b "OK  x"; b "OK "; b "OKAY"; b "OKfoo"; b "OK" ++ [9] ++ b "x"; b "ok"; b " OK"; b "O"; b ""]
+  = [true; true; true; true; false; false; false; false; false; false; false]
+  /\ map (fun l => is_command l OK_) [b "OK"; b "OK 1234deadbeef"; b "OK  x"; b "OK "; b "OKAY"; b "OKfoo"; b "OK" ++ [9] ++ b "x"; b "ok"; b " OK"; b "O"; b ""]
+  = [true; true; true; true; false; false; false; false; false; false; false]
+  /\ map (accepts AGREE_UNIX_FD) [b "AGREE_UNIX_FD"; b "AGREE_UNIX_FD extra"; b "AGREE_UNIX_FDX"; b "AGREE_UNIX_F"; b "agree_unix_fd"]
+  = [true; true; false; false; false].
+Proof. vm_compute. auto. Qed.
+Example hs_okay_rejected : run 0 false {| greeting := quiet; replies := [say [b "OKAY" ++ CRLF]] |}
+                           = (CAuthFailed, [0] ++ b "AUTH EXTERNAL 30" ++ CRLF, []).
+Proof. vm_compute. reflexivity. Qed.
+Example hs_agree_x_rejected : run 0 true {| greeting := quiet; replies := [say [b "OK" ++ CRLF]; say [b "AGREE_UNIX_FDX" ++ CRLF]] |}
+                           = (CFdFailed, [0] ++ b "AUTH EXTERNAL 30" ++ CRLF ++ b "NEGOTIATE_UNIX_FD" ++ CRLF, []).
+Proof. vm_compute. reflexivity. Qed.
+
 (* a well-behaved server, reply split over three reads *)
 Example hs_ok : run 1000 true {| greeting := quiet; replies := [say [b "O"; b "K 1234"; [13]; [10]]; say [b "AGREE_UNIX_FD" ++ CRLF]; quiet] |}
                 = (COk, full "31303030" true, []).
